@@ -263,6 +263,12 @@ pub fn harnesses(thorough: bool) -> Vec<Harness> {
             out.push(Harness { name: Box::leak(format!("{}/{}", sn, mn).into_boxed_str()), setup: setup.clone(), threads: threads.clone() });
         }
     }
+    // quick tier: a rotation racing with two read_next calls on the nearly full tail (the
+    // three-thread menus of the quick tier otherwise start from a tail with room)
+    if !thorough {
+        let (sn, setup) = &setups[2];
+        out.push(Harness { name: Box::leak(format!("{}/Prot|C|C", sn).into_boxed_str()), setup: setup.clone(), threads: vec![vec![ap(h)], vec![rn.clone()], vec![rn.clone()]] });
+    }
     // The quick tier carries one three-thread harness at two preemptions: the smallest
     // configuration in which a rotation, a retrying read_next and a second consumer meet
     // (it is where the thorough tier found the stale-fold defect).
